@@ -228,7 +228,9 @@ class Oracle(_c18.Oracle):
         for o in run.orders:
             if o.market_id != mb.market_id:
                 continue      # requests still queued when a market's file ends are dropped with the queue (end of data, not a fault)
-            if o.status is not None and o.status.name in ("CANCELLING", "UPDATING", "REPLACING") and id(o) not in queued:
+            if o.status is not None and o.status.name in ("PENDING", "CANCELLING", "UPDATING", "REPLACING") and id(o) not in queued:
+                # (no_order_stranded_whole_run: an order in an in-flight status - PENDING included: the replacement order of a replace
+                # passes through it - is listed by a queued package)
                 self.add("order-left-in-flight", "simulated: order %d is %s with no package queued" % (o._vidx, o.status.name))
         for t in run.trade_order:
             if t.market_id == mb.market_id and t.status.name == "PENDING":
